@@ -37,6 +37,7 @@ type Delivery struct {
 type Scenario struct {
 	RunSeed    uint64     `json:"run_seed"`
 	Parallel   int        `json:"parallel,omitempty"` // >0: that many signer/verifier pairs work concurrently, each with its own key (Deliveries are ignored)
+	Leftovers  bool       `json:"leftovers,omitempty"` // the SIG record handed to Sign is a recycled one: every field Sign is documented to fill in itself still holds something
 	Resign     bool       `json:"resign,omitempty"`   // the signer uses its SIG record a second time (a template kept between messages); the second output is what travels
 	Msg        gen.Recipe `json:"msg"`
 	Key        int        `json:"key"`
@@ -84,6 +85,7 @@ func Gen(seed uint64, tier string) any {
 		sc.Parallel = 2 + r.IntN(3)
 	}
 	sc.Resign = core.Chance(r, 25)
+	sc.Leftovers = core.Chance(r, 15)
 	sc.EpochS = core.Pick(r, 0, 1, 86400*365, 86400*365*20)
 	sc.InceptOff = core.Pick(r, 0, -300, 300, -1, 1, -86400)
 	sc.ValidFor = core.Pick(r, 600, 600, 2, 1, 0, 86400*30, -1, -300) // negative: expiration before inception, nothing is ever inside
@@ -190,6 +192,11 @@ func Shrink(x any) []any {
 	if sc.Resign {
 		n := cp()
 		n.Resign = false
+		out = append(out, n)
+	}
+	if sc.Leftovers {
+		n := cp()
+		n.Leftovers = false
 		out = append(out, n)
 	}
 	if sc.InceptOff != 0 {
@@ -303,6 +310,13 @@ func runIn(sc *Scenario, res *core.Result, verbose bool) {
 	sig.KeyTag = kp.key.KeyTag()
 	sig.SignerName = kp.key.Hdr.Name
 	sig.Inception, sig.Expiration = incept, expire
+	if sc.Leftovers {
+		// Sign asks for algorithm, key tag, signer name and the window; the rest is its own business
+		sig.Hdr = dns.RR_Header{Name: "left.over.example.", Rrtype: dns.TypeRRSIG, Class: dns.ClassINET, Ttl: 3600, Rdlength: 77}
+		sig.TypeCovered, sig.Labels, sig.OrigTtl = dns.TypeSOA, 3, 86400
+		sig.Signature = "bGVmdG92ZXI="
+		res.Bump("fault.sig_record_with_leftovers")
+	}
 	arBefore := int(binary.BigEndian.Uint16(packed[10:]))
 
 	// --- Q1: signing succeeds, output = packed message || one SIG, ARCOUNT+1
